@@ -19,6 +19,10 @@ def transcriptOps (H : Hashes) : Transcript → List String → List Felt → Op
     if o == "r" then
       let (c, t') := t.randomFelt H
       transcriptOps H t' os (c :: acc)
+    else if o.startsWith "R:" then
+      (felt? (o.drop 2).toString).bind fun n =>
+        let (cs, t') := t.randomFelts H n
+        transcriptOps H t' os (cs.reverse ++ acc)
     else if o.startsWith "f:" then
       (felt? (o.drop 2).toString).bind fun v => transcriptOps H (t.readFelt H v) os acc
     else if o.startsWith "v:" then
